@@ -6,8 +6,9 @@
     (C07_flowspec_operators_roundtrip_partial) and for the rule length prefix at every body length
     1..4095, both forms (the C07_flowspec_length_prefix theorems); the full statement is
     C07_flowspec_roundtrip_statement.
-    EVPN route types 1-4: not modelled; the harness runs the round-trip oracle on the
-    implementation only.
+    EVPN route types 1-4 (model/YEvpn.v): MAC text, ESI types 0-5, each route type, the NLRI list
+    and the MP_REACH / MP_UNREACH (25, 70) attributes, for all in-range values (the C07_evpn theorems
+    at the end of this file).
 
     Values: addresses are integers (text rendering is done by netaddr and is canonicalised by
     the harness); [V4 n] / [V6 n] is the version netaddr.IPAddress(int) picks for the decoded
@@ -20,9 +21,9 @@
     parser is bounded to the route as by build/proposed/c11-label-stack-bound.diff; flowspec operand
     widths and the 2-octet rule length as by build/proposed/c08-flowspec-framing.diff. *)
 From YV Require Import lib.Base gen.Consts model.YMp model.YPrefix6 model.YLabel model.YVpn model.YLu
-  model.YFlow4
+  model.YFlow4 lib.Dec model.YEvpn
   proof.MpPrefix6Proofs proof.MpLabelProofs proof.MpVpnProofs proof.MpLuProofs proof.MpFlow4Proofs
-  proof.MpFlow4Frame.
+  proof.MpFlow4Frame proof.MpEvpn.
 
 (** ------------------------------------------------------------------ IPv6 unicast *)
 
@@ -344,3 +345,212 @@ Theorem C07_flowspec_refuted_tcp_flags_dropped :
   fs_parse_all [3; 1; 8; 10] = Ok [[(1, CPfx (167772160, 8))]].
 Proof. exact refuted_tcp_flags_dropped. Qed.
 Print Assumptions C07_flowspec_refuted_tcp_flags_dropped.
+
+(** ------------------------------------------------------------------ EVPN (AFI 25, SAFI 70) *)
+
+(** Values (model/YEvpn.v): a MAC address is its TEXT (the model splits it on '-' and converts the
+    groups like the code does), IP addresses are (version, integer), an ESI is [Esi0 .. Esi5], a route
+    is [EAutoDiscovery] (type 1), [EMacIp] (2), [EMulticast] (3), [ESegment] (4).  The guards are the
+    boolean predicates of proof/MpEvpn.v:
+      [canon_macb s]   s is accepted by construct_mac and is spelled as the decoder spells it
+                       (six two-digit upper-case groups): true for the text of EVERY six octets
+                       (C07_evpn_mac_every_address);
+      [wf_esib e]      type 0 value < 2^72; types 1, 2: canonical MAC, 2-octet number; type 3: canonical
+                       MAC, 3-octet discriminator; types 4, 5: two 4-octet numbers;
+      [wf_routeb x]    RD of type 0 / 1 / 2 in range, [wf_esib], Ethernet tag < 2^32, canonical MAC,
+                       IPv4 address < 2^32 / IPv6 address < 2^128, labels < 2^20 (any depth, a last
+                       label 0 included), type 1: at least one label, types 3 and 4: the address
+                       present, the encoded route at most 255 octets (its length field is one octet);
+      [high_ipb a]     a is not an IPv6 address below 2^32 (those decode as IPv4: known finding
+                       C07-evpn-low-ipv6-address-as-ipv4, C07_evpn_refuted_low_ipv6_address). *)
+
+(** MAC text: the text of every six octets is canonical ... *)
+Theorem C07_evpn_mac_every_address : forall o, length o = 6%nat -> wf_bytes o -> canon_macb (show_mac o) = true.
+Proof. exact canon_mac_show. Qed.
+Print Assumptions C07_evpn_mac_every_address.
+
+(** ... and every canonical text is written on six octets that decode to the same text *)
+Theorem C07_evpn_mac_roundtrip : forall s, canon_macb s = true ->
+  exists o, construct_mac s = Ok o /\ length o = 6%nat /\ wf_bytes o /\ parse_mac o = Ok s.
+Proof. exact mac_roundtrip. Qed.
+Print Assumptions C07_evpn_mac_roundtrip.
+
+(** whatever text construct_mac accepts (lower case, one-digit groups, ...) decodes to the canonical
+    text of the same six octets *)
+Theorem C07_evpn_mac_behaviour : forall s o, construct_mac s = Ok o ->
+  length o = 6%nat /\ wf_bytes o /\ parse_mac o = Ok (show_mac o) /\ canon_macb (show_mac o) = true.
+Proof. exact mac_behaviour. Qed.
+Print Assumptions C07_evpn_mac_behaviour.
+
+Example C07_evpn_mac_nonvacuous :
+  canon_macb ex_mac = true /\ construct_mac ex_mac = Ok [10; 27; 44; 61; 78; 255] /\
+  parse_mac [10; 27; 44; 61; 78; 255] = Ok ex_mac /\
+  canon_macb ex_mac_lower = false /\ construct_mac ex_mac_lower = Ok [10; 27; 44; 61; 78; 255].
+Proof. repeat match goal with |- _ /\ _ => split end; vm_compute; reflexivity. Qed.
+
+(** every in-range ESI of type 0..5 is written on 10 octets and decodes to itself *)
+Theorem C07_evpn_esi_roundtrip : forall e, wf_esib e = true ->
+  exists b, construct_esi e = Ok b /\ length b = 10%nat /\ parse_esi b = Ok e.
+Proof. exact esi_roundtrip. Qed.
+Print Assumptions C07_evpn_esi_roundtrip.
+
+Example C07_evpn_esi_nonvacuous :
+  wf_esib (Esi0 (2 ^ 72 - 1)) = true /\ wf_esib (Esi1 ex_mac 65535) = true /\ wf_esib (Esi2 ex_mac 256) = true /\
+  wf_esib (Esi3 ex_mac 16777215) = true /\ wf_esib (Esi3 ex_mac 1) = true /\
+  wf_esib (Esi4 (2 ^ 32 - 1) 1) = true /\ wf_esib (Esi5 65536 (2 ^ 32 - 1)) = true /\
+  construct_esi (Esi3 ex_mac 1) = Ok [3; 10; 27; 44; 61; 78; 255; 0; 0; 1].
+Proof. repeat match goal with |- _ /\ _ => split end; vm_compute; reflexivity. Qed.
+
+(** every non-empty stack of 20-bit labels at the end of a route, a last label 0 included (the
+    decoder stops at the end of the route, so the missing bottom-of-stack bit of label 0 is harmless
+    here, unlike C07_label_refuted_zero_without_bottom_of_stack) *)
+Theorem C07_evpn_labels_roundtrip : forall ls, ls <> [] -> wf_labelsb ls = true ->
+  exists b, construct_labels ls = Ok b /\ length b = (3 * length ls)%nat /\ parse_labels b = ls.
+Proof. exact labels_roundtrip. Qed.
+Print Assumptions C07_evpn_labels_roundtrip.
+
+Example C07_evpn_labels_nonvacuous :
+  wf_labelsb [1048575; 0; 16; 0] = true /\
+  construct_labels [1048575; 0; 16; 0] = Ok [255; 255; 240; 0; 0; 0; 0; 1; 0; 0; 0; 0].
+Proof. repeat match goal with |- _ /\ _ => split end; vm_compute; reflexivity. Qed.
+
+(** route type 1, Ethernet Auto-Discovery *)
+Theorem C07_evpn_ethernet_auto_discovery_roundtrip : forall r e tag ls,
+  wf_routeb (EAutoDiscovery r e tag ls) = true ->
+  exists b, construct_route (EAutoDiscovery r e tag ls) = Ok b /\
+            parse_route c_BGPNLRI_EVPN_ETHERNET_AUTO_DISCOVERY b = Ok (Some (PAutoDiscovery (PRd r) e tag ls)).
+Proof. exact autodiscovery_roundtrip. Qed.
+Print Assumptions C07_evpn_ethernet_auto_discovery_roundtrip.
+
+(** route type 2, MAC/IP Advertisement: with and without IP address, with and without labels *)
+Theorem C07_evpn_mac_ip_advertisement_roundtrip : forall r e tag mac ip ls,
+  wf_routeb (EMacIp r e tag mac ip ls) = true -> high_ipob ip = true ->
+  exists b, construct_route (EMacIp r e tag mac ip ls) = Ok b /\
+            parse_route c_BGPNLRI_EVPN_MAC_IP_ADVERTISEMENT b = Ok (Some (PMacIp (PRd r) e tag mac ip ls)).
+Proof. exact macip_roundtrip. Qed.
+Print Assumptions C07_evpn_mac_ip_advertisement_roundtrip.
+
+(** route type 3, Inclusive Multicast Ethernet Tag *)
+Theorem C07_evpn_inclusive_multicast_roundtrip : forall r tag ip,
+  wf_routeb (EMulticast r tag ip) = true -> high_ipob ip = true ->
+  exists b, construct_route (EMulticast r tag ip) = Ok b /\
+            parse_route c_BGPNLRI_EVPN_INCLUSIVE_MULTICAST_ETHERNET_TAG b = Ok (Some (PMulticast (PRd r) tag ip)).
+Proof. exact multicast_roundtrip. Qed.
+Print Assumptions C07_evpn_inclusive_multicast_roundtrip.
+
+(** route type 4, Ethernet Segment *)
+Theorem C07_evpn_ethernet_segment_roundtrip : forall r e ip,
+  wf_routeb (ESegment r e ip) = true -> high_ipob ip = true ->
+  exists b, construct_route (ESegment r e ip) = Ok b /\
+            parse_route c_BGPNLRI_EVPN_ETHERNET_SEGMENT b = Ok (Some (PSegment (PRd r) e ip)).
+Proof. exact segment_roundtrip. Qed.
+Print Assumptions C07_evpn_ethernet_segment_roundtrip.
+
+(** exact behaviour of every in-range route of types 1..4 without the restriction on IPv6
+    addresses ([rendered_route]: netaddr's rendering of the address), with the facts the list
+    encoder needs (not empty, at most 255 octets) *)
+Theorem C07_evpn_route_behaviour : forall x, wf_routeb x = true ->
+  exists b, construct_route x = Ok b /\ b <> [] /\ (length b <= 255)%nat /\
+            parse_route (route_type x) b = Ok (Some (rendered_route x)).
+Proof. exact route_behaviour. Qed.
+Print Assumptions C07_evpn_route_behaviour.
+
+Example C07_evpn_routes_nonvacuous :
+  wf_routeb ex_route1 = true /\ wf_routeb ex_route2 = true /\ wf_routeb ex_route3 = true /\ wf_routeb ex_route4 = true /\
+  high_routeb ex_route2 = true /\ high_routeb ex_route3 = true /\ high_routeb ex_route4 = true /\
+  wf_routeb (EMacIp (RdAs 1 1) (Esi0 0) 0 ex_mac None []) = true /\
+  construct_route ex_route3 = Ok [0; 2; 255; 255; 255; 255; 255; 255; 0; 0; 0; 0; 32; 255; 255; 255; 255] /\
+  parse_route 2 [0; 1; 192; 168; 1; 1; 255; 255; 3; 10; 27; 44; 61; 78; 255; 255; 255; 255; 255; 255; 255; 255;
+                 48; 10; 27; 44; 61; 78; 255; 128; 128; 0; 0; 0; 0; 0; 0; 0; 0; 0; 0; 0; 0; 0; 0; 1;
+                 0; 1; 0; 0; 0; 0] = Ok (Some (same_route ex_route2)).
+Proof. repeat match goal with |- _ /\ _ => split end; vm_compute; reflexivity. Qed.
+
+(** MP_REACH (25, 70): next hop IPv4 or IPv6, every list of in-range routes of types 1..4 *)
+Theorem C07_evpn_roundtrip : forall nh rs,
+  in_ipb nh = true -> high_ipb nh = true -> forallb wf_routeb rs = true -> forallb high_routeb rs = true ->
+  forall nlri, construct_evpn rs = Ok nlri -> len nlri + N.of_nat (ip_octets nh) + 5 <= 65535 ->
+  exists v, reachevpn_construct nh rs =
+              Ok ([c_ATTR_MpReachNLRI_FLAG; c_ATTR_MpReachNLRI_ID] ++ be 2 (len v) ++ v) /\
+            reachevpn_parse v = Ok (nh, map same_route rs).
+Proof. exact reachevpn_roundtrip. Qed.
+Print Assumptions C07_evpn_roundtrip.
+
+(** exact behaviour without the restriction on IPv6 addresses *)
+Theorem C07_evpn_behaviour : forall nh rs,
+  in_ipb nh = true -> forallb wf_routeb rs = true ->
+  forall nlri, construct_evpn rs = Ok nlri -> len nlri + N.of_nat (ip_octets nh) + 5 <= 65535 ->
+  exists v, reachevpn_construct nh rs =
+              Ok ([c_ATTR_MpReachNLRI_FLAG; c_ATTR_MpReachNLRI_ID] ++ be 2 (len v) ++ v) /\
+            reachevpn_parse v = Ok (render_addr nh, map rendered_route rs).
+Proof. exact reachevpn_behaviour. Qed.
+Print Assumptions C07_evpn_behaviour.
+
+(** MP_UNREACH (25, 70) *)
+Theorem C07_evpn_unreach_roundtrip : forall rs,
+  rs <> [] -> forallb wf_routeb rs = true -> forallb high_routeb rs = true ->
+  forall nlri, construct_evpn rs = Ok nlri -> len nlri + 3 <= 65535 ->
+  exists v, unreachevpn_construct rs =
+              Ok (Some ([c_ATTR_MpUnReachNLRI_FLAG; c_ATTR_MpUnReachNLRI_ID] ++ be 2 (len v) ++ v)) /\
+            unreachevpn_parse v = Ok (map same_route rs).
+Proof. exact unreachevpn_roundtrip. Qed.
+Print Assumptions C07_evpn_unreach_roundtrip.
+
+Theorem C07_evpn_unreach_behaviour : forall rs,
+  rs <> [] -> forallb wf_routeb rs = true ->
+  forall nlri, construct_evpn rs = Ok nlri -> len nlri + 3 <= 65535 ->
+  exists v, unreachevpn_construct rs =
+              Ok (Some ([c_ATTR_MpUnReachNLRI_FLAG; c_ATTR_MpUnReachNLRI_ID] ++ be 2 (len v) ++ v)) /\
+            unreachevpn_parse v = Ok (map rendered_route rs).
+Proof. exact unreachevpn_behaviour. Qed.
+Print Assumptions C07_evpn_unreach_behaviour.
+
+(** the encoder succeeds on every in-range list (the hypothesis "construct_evpn rs = Ok nlri" holds) *)
+Theorem C07_evpn_construct_total : forall rs, forallb wf_routeb rs = true ->
+  exists nlri, construct_evpn rs = Ok nlri.
+Proof. exact construct_evpn_total. Qed.
+Print Assumptions C07_evpn_construct_total.
+
+Example C07_evpn_nonvacuous :
+  let rs := [ex_route1; ex_route2; ex_route3; ex_route4] in
+  in_ipb (V6 (2 ^ 127)) = true /\ high_ipb (V6 (2 ^ 127)) = true /\
+  forallb wf_routeb rs = true /\ forallb high_routeb rs = true /\
+  match construct_evpn rs with Ok nlri => len nlri = 140 | _ => False end /\
+  match reachevpn_construct (V6 (2 ^ 127)) rs with
+  | Ok w => reachevpn_parse (drop 4 w) = Ok (V6 (2 ^ 127), map same_route rs)
+  | _ => False
+  end /\
+  match unreachevpn_construct rs with
+  | Ok (Some w) => unreachevpn_parse (drop 4 w) = Ok (map same_route rs)
+  | _ => False
+  end.
+Proof. cbv zeta. repeat match goal with |- _ /\ _ => split end; vm_compute; reflexivity. Qed.
+
+(** defect (known finding C07-evpn-low-ipv6-address-as-ipv4): an in-range route ([wf_routeb]) whose
+    IPv6 address is below 2^32 - type 3, RD 100:1, tag 1, originator ::1, next hop 10.0.0.1 - comes
+    back with the IPv4 address 0.0.0.1 *)
+Theorem C07_evpn_refuted_low_ipv6_address :
+  wf_routeb (EMulticast (RdAs 100 1) 1 (Some (V6 1))) = true /\
+  reachevpn_construct (V4 167772161) [EMulticast (RdAs 100 1) 1 (Some (V6 1))] =
+    Ok ([144; 14] ++ be 2 (len w_evpn_low) ++ w_evpn_low) /\
+  reachevpn_parse w_evpn_low = Ok (V4 167772161, [PMulticast (PRd (RdAs 100 1)) 1 (Some (V4 1))]).
+Proof. exact refuted_evpn_low_address. Qed.
+Print Assumptions C07_evpn_refuted_low_ipv6_address.
+
+(** outside the guards the encoder refuses instead of writing a malformed route: types 3 and 4
+    without the originating router's address, type 1 without label, MAC text without six groups,
+    an ESI type 3 discriminator that does not fit 3 octets *)
+Theorem C07_evpn_refuses_unencodable : forall r tag e s m l b,
+  construct_route (EMulticast r tag None) <> Ok b /\ construct_route (ESegment r e None) <> Ok b /\
+  construct_route (EAutoDiscovery r e tag []) <> Ok b /\
+  (length (split_on 45 s) <> 6%nat -> construct_mac s = Exc) /\
+  (16777215 < l -> construct_esi (Esi3 m l) <> Ok b).
+Proof. exact refuses_unencodable. Qed.
+Print Assumptions C07_evpn_refuses_unencodable.
+
+(** "12" and "00-11-22-33-44" (commit 2751f81) are refused; so is a discriminator of 2^24 *)
+Example C07_evpn_refuses_nonvacuous :
+  length (split_on 45 [49; 50]) <> 6%nat /\ construct_mac [49; 50] = Exc /\
+  construct_mac [48; 48; 45; 49; 49; 45; 50; 50; 45; 51; 51; 45; 52; 52] = Exc /\
+  construct_esi (Esi3 ex_mac 16777216) = Exc /\
+  construct_route (EMulticast (RdAs 100 1) 1 None) = Exc.
+Proof. repeat match goal with |- _ /\ _ => split end; try (vm_compute; reflexivity). vm_compute. discriminate. Qed.
